@@ -445,7 +445,9 @@ fn judge(c: &Case, s: &Seen) -> Verdict {
         return viol("forward:request-malformed", format!("{}: origin received {:?}", what, String::from_utf8_lossy(&s.origin_request[..s.origin_request.len().min(300)])));
     };
     ensure!(
-        r.method == Some(c.method.as_str()) && r.path == Some(c.path.as_str()) && r.version == Some(1),
+        // OPTIONS for "/" may go out as "*": the parsed URI does not tell "/" from the empty path
+        // for which RFC 9112 3.2.4 prescribes the asterisk form
+        r.method == Some(c.method.as_str()) && (r.path == Some(c.path.as_str()) || (c.method == "OPTIONS" && c.path == "/" && r.path == Some("*"))) && r.version == Some(1),
         "forward:request-line-differs",
         "{}: origin saw {:?} {:?} HTTP/1.{:?}",
         what,
@@ -573,7 +575,7 @@ impl Suite for ForwardSuite {
     fn strategy(&self, _: Tier) -> BoxedStrategy<Case> {
         (
             any::<bool>(),
-            prop_oneof![5 => Just("GET"), 1 => Just("HEAD"), 3 => Just("POST"), 1 => Just("PUT")],
+            prop_oneof![5 => Just("GET"), 1 => Just("HEAD"), 3 => Just("POST"), 1 => Just("PUT"), 1 => Just("DELETE"), 1 => Just("PATCH"), 1 => Just("OPTIONS")],
             "/[a-z0-9/]{0,16}(\\?[a-z]=[0-9]{1,3})?",
             prop::collection::vec(("X-[A-Z][a-z]{1,8}", "[a-zA-Z0-9 ;=/.-]{1,24}").prop_map(|(n, v)| (n, v.trim().to_string())).prop_filter("non-empty", |(_, v)| !v.is_empty()), 0..3),
             prop_oneof![
@@ -593,7 +595,9 @@ impl Suite for ForwardSuite {
             (any::<bool>(), prop::collection::vec(any::<u16>(), 0..8), any::<bool>()),
         )
             .prop_map(|(h2, method, path, req_headers, body_kind, body, interim, status, framing, body_len, (hop_by_hop, cuts, slow_client))| {
-                let req_body = if method == "GET" || method == "HEAD" {
+                // any method may carry a body (a GET with a JSON body is common with search APIs);
+                // HEAD stays bodiless, and two GETs in three
+                let req_body = if method == "HEAD" || (method == "GET" && body.len() % 3 != 0) {
                     ReqBody::None
                 } else {
                     match body_kind {
